@@ -200,6 +200,14 @@ def check(run):
                 run.violation(r2, "%s|%s|%s" % (a, b, g[:200]),
                               "global %s is read on the call path of policy %s and written by update<%s>()" % (g, a, b),
                               upd[b][g])
+    # "update on a different policy": a policy derived from another one with rebind / replace / remove owns every piece of its
+    # state - no facet, with or without extra template arguments, stays keyed by the policy it was derived from (E3, shared with C14)
+    from . import c14
+    from .. import e3
+    run.rule("C16-rebind", "a policy obtained by rebind / replace / remove shares no facet (hence no static) with the policy it was derived from", floor=60)
+    for ob, ok, msg in e3.run_unit(run, "C16-rebind", c14.rebind_unit()):
+        if not ok:
+            run.violation("C16-rebind", ob["key"], "%s: %s" % (ob["desc"], msg), "include/yorel/yomm2/policies/core.hpp")
     run.assumptions += [
         "the C++ standard library, libsupc++ and libc are a trusted base: their bodies are not analysed; a call is a write iff a "
         "shared object is passed as non-const `this` / non-const reference, except the members [container.requirements.dataraces] exempts",
